@@ -467,19 +467,24 @@ def Peer.blocks : List Peer → List (Cidr × List Cidr)
   | .block c ex :: t => (c, ex) :: Peer.blocks t
   | _ :: t => Peer.blocks t
 
-/-- excludes deviations (a), (b): pod selectors only in single-namespace clusters, never together with a
-    namespace selector -/
+/-- excludes deviations (a), (b) as far as they matter: a pod selector is resolved in ALL namespaces by the compiler,
+    which is harmless exactly when every pod it matches lives where the API looks — in the policy's namespace
+    (podSelector-only peer), resp. in a namespace the namespaceSelector matches (peer with both selectors) -/
 def peerOK (c : Cluster) (p : NetPol) : Peer → Bool
   | .nss _ => true
   | .block _ _ => true
-  | .pods _ => c.pods.all (fun q => q.ns == p.ns)
-  | .both _ _ => false
+  | .pods s => c.pods.all (fun q => !(s.matches q.labels) || q.ns == p.ns)
+  | .both n s => c.pods.all (fun q => !(s.matches q.labels) || nsMatches c n q.ns)
 
-/-- excludes deviation (g): the ipBlock peers of one rule share one hash:net set, which is faithful when there is
-    at most one ipBlock whose excepts are strictly more specific than its cidr, or when no ipBlock has excepts -/
+/-- two CIDRs share an address iff the network address of one lies in the other -/
+def cidrOverlap (e c : Cidr) : Bool := inCidr e.net c || inCidr c.net e
+
+/-- excludes deviation (g): the ipBlock peers of one rule share one hash:net set (most specific entry decides), which
+    is faithful when every except is strictly narrower than its own cidr and shares no address with the cidr of any
+    OTHER ipBlock of the rule (any number of ipBlocks, any number of excepts) -/
 def netOK (r : Rule) : Bool :=
   let bs := Peer.blocks r.peers
-  (bs.length ≤ 1 && bs.all (fun b => b.2.all (fun e => b.1.len < e.len))) || bs.all (fun b => b.2.isEmpty)
+  bs.all (fun b => b.2.all (fun e => decide (b.1.len < e.len) && bs.all (fun b' => b' == b || !cidrOverlap e b'.1)))
 
 /-- excludes (c) empty peer lists and (f) port-less port entries -/
 def ruleOK (c : Cluster) (p : NetPol) (r : Rule) : Bool :=
